@@ -111,6 +111,10 @@ Apply(st, c, nv) ==
     [] c.t = "listowner" -> [st |-> st, res |-> Ok(OwnedBy(st, c.k, c.uid))]
     [] c.t = "snapshot"  -> [st |-> st, res |-> Ok(AllOf(st))]
     [] c.t = "restore"   -> Restore(st, c.rs)
+    \* Store.Restore() + Restoration.Apply: builds the new database aside; nothing observable changes.
+    \* (Restoration.Commit is the "restore" step above: it discards everything after the snapshot,
+    \* including writes acknowledged since Store.Restore())
+    [] c.t = "rbegin"    -> [st |-> st, res |-> Ok({})]
 
 ---------------------------------------------------------------------------
 (* Watches: inmem/watch.go, store.go watchSnapshot.  A watch is a complete    *)
